@@ -369,6 +369,20 @@ pub fn run(cfg: &J) -> J {
             }
         }
     }
+    {
+        // decimal literals with every exponent the scaling tables and loops of the number reader can meet, for several
+        // shapes of significand (integer, fraction, more digits than a u64 holds, leading fraction zeros)
+        let mut sweep = 0u64;
+        for sig in ["1", "-0.5", "1.234", "10", "12345678901234567890123", "0.000000000000000000001", "9007199254740993", "-0"] {
+            for e in -700i32..=420 {
+                for text in [format!("{}e{}", sig, e), format!("({}E{} x)", sig, e)] {
+                    sweep += 1;
+                    short += 1;
+                    run_text(text.as_bytes(), &mut bad, &mut raw, sweep % 1999 == 0);
+                }
+            }
+        }
+    }
     // (3) mutation-based inputs up to several KB
     let mut rng = rand::rngs::StdRng::seed_from_u64(cfg["seed"].as_u64().unwrap_or(1));
     let nm = cfg["mutated"].as_u64().unwrap_or(2000);
